@@ -168,6 +168,11 @@ type Payload struct {
 	hashed bool
 
 	srcNode int // harness bookkeeping: id of the node whose Broadcast produced it (-1: scripted)
+
+	// badWitness: the payload is well formed and its consensus data (signature / pre-commit data) fits, but the
+	// application's payload verifier (VerifyPrepareRequest/Response/PreCommit/Commit callback) refuses it, e.g. a bad
+	// witness. Part of the content hash.
+	badWitness bool
 }
 
 var _ dbft.ConsensusPayload[H] = (*Payload)(nil)
@@ -243,6 +248,9 @@ func (p *Payload) Hash() H {
 	s.u64(uint64(p.height))
 	s.b(p.view)
 	s.u64(uint64(p.idx))
+	if p.badWitness {
+		s.b(0xbd)
+	}
 	switch b := p.body.(type) {
 	case *prepReq:
 		s.u64(b.ts)
